@@ -76,12 +76,21 @@ def check_tree(env, tree, extras=True):
     vars, cells = F.bindings(tree)
     env.note('expect-' + exp[0])
     n = 0
+    first = None
     for name, s in renderings(tree, extras):
         out = env.evo(s, vars, cells=(cells if cells else None))
         n += 1
         if not agree(out, exp):
             return fail('%s rendering %r of tree evaluates to %r, exact value of the tree is %s' % (
                 name, s, out, _show(exp)), _show(exp), out, case=['tree', tree])
+        # all renderings denote the SAME tree, hence the same sequence of floating-point operations:
+        # their outcomes must be identical, not merely close
+        if first is None:
+            first = (name, s, out)
+        elif out != first[2]:
+            return fail('renderings of one tree differ: %s %r gives %r but %s %r gives %r (same tree, so the same '
+                        'operations in the same order)' % (first[0], first[1], first[2], name, s, out), first[2], out,
+                        case=['tree', tree])
     if n > 1:
         env.nt()
     return None
@@ -158,6 +167,38 @@ class Arith(Sub):
                         out.append(f)
                         if len(out) > 3:
                             return out
+        return out
+
+
+class FloatGrouping(Sub):
+    name = 'c04.float_grouping'
+    rule = ('all trees with <= 3 operators over + - * / whose leaves are non-dyadic decimals (0.2, 0.3, 0.5, 0.7, 1.1, '
+            '1.3): a wrong grouping among operators of one level (a+b-c read as a+(b-c)) changes only the rounding of the '
+            'result, so every rendering must give bit-identical results; non-trivial = tree with >= 2 operators')
+    min_cases = 5
+    min_nontrivial = 300
+
+    def cases(self, tier, unit):
+        for n in range(1, 4):
+            for si, _ in enumerate(F.shapes(n)):
+                yield ['blk', n, si]
+
+    def check(self, env, case):
+        if case[0] == 'tree':
+            return check_tree(env, case[1])
+        _, n, si = case
+        sh = list(F.shapes(n))[si]
+        out = []
+        for ops in itertools.product(F.ARITH, repeat=n):
+            for un in ((), (0,), (1,)):
+                tree = F.build(sh, ops, ('tenth',), set(un))
+                if n >= 2:
+                    env.nt()
+                f = check_tree(env, tree)
+                if f:
+                    out.append(f)
+                    if len(out) > 3:
+                        return out
         return out
 
 
@@ -373,4 +414,4 @@ class Deep(Sub):
         return check_tree(env, t, extras=False)
 
 
-SUBS = [Arith(), Zero(), Compare(), Amp(), Deep()]
+SUBS = [Arith(), FloatGrouping(), Zero(), Compare(), Amp(), Deep()]
